@@ -8,7 +8,7 @@ prop("C04", pkg="c04",
           "tags required / optional / enum), 2-5 value recipes for it (boundary-weighted integers, special float bit patterns, list lengths 0/1/14/15/16/>16/127+; a small share of the strings / binaries - field values, list elements, map keys and values - has 65537, 70000 or 131073 bytes, above the 64 KiB up to which the readers allocate at once), "
           "and a protocol schedule; ~1.1 % of the cases instead use tgen.BigSpec: a list (of bool, i8..i64, double, string or struct), set or map that REALLY holds 1025, 1100, "
           "2048, 2049 or 5001 distinct elements (the decoder preallocates 1024), at the top level or nested in a struct, a pointer-to struct, a list or a map, with a "
-          "second value of 1024, 1026, 3000 or 5001 elements. Every value is put through Marshal/Unmarshal and a fresh Encoder/Decoder for all three protocols, through one Encoder and one "
+          "second value of 1024, 1026, 3000 or 5001 elements. Every case also draws how the bytes reach the Decoders (fresh, Reset chain and stream): all at once (bytes.Reader), one byte per Read, half of what is asked, chunks of 1..7 bytes, a 16-byte bufio.Reader, or the last chunk returned together with io.EOF - the decoded values must not depend on it. Every value is put through Marshal/Unmarshal and a fresh Encoder/Decoder for all three protocols, through one Encoder and one "
           "Decoder Reset before each value across the scheduled protocols, and through one Encoder/Decoder over a single stream. The two defects found "
           "(KF-C04-001, -002) are repaired in /repo and listed as fixed: the full domain is generated (id ranges beyond 64 in ~20 % of the types) and their "
           "witnesses run as regression cases; only if such an entry were set back to 'known' would wide id layouts be rewritten (counted in excluded_known). Non-trivial = at least one value of the case encodes >= 2 top-level fields; "
